@@ -3,7 +3,7 @@
 // compiled here with AddressSanitizer + UBSan) and prints the observable state after every step.
 //
 //   c11_arrays exec <opsfile> <outfile>     line protocol (see lean/Driver/C11.lean)
-//   c11_arrays nd <seed> <histories> <len> <outfile>   N-dim arrays vs reference maps (oracle)
+//   c11_arrays nd <seed> <histories> <len> <outfile>   N-dim arrays (2..4), views and constructors vs reference maps (oracle)
 //
 // Every output line is flushed before the next operation runs, so that after a sanitizer
 // abort the last line of <outfile> identifies the operation that aborted.
@@ -14,6 +14,9 @@
 #include "stir/VectorWithOffset.h"
 #include "stir/shared_ptr.h"
 #include "stir/copy_fill.h"
+#include "stir/NumericVectorWithOffset.h"
+#include "stir/array_index_functions.h"
+#include "stir/BasicCoordinate.h"
 #include "common.h"
 #include <map>
 #include <set>
@@ -39,6 +42,32 @@ dump(const A1& a)
     }
   s << "]";
   return s.str();
+}
+
+// guards shared with the model (StirVerif.C11.Vec.small / noZero / smallInt): an arithmetic operation is
+// executed only if no 32-bit overflow and no division by zero can occur (both undefined behaviour in C++,
+// outside the property); otherwise harness and model both answer "skip" and leave the state alone
+static const int BOUND = 30000;
+static bool
+small_int(int x)
+{
+  return x >= -BOUND && x <= BOUND;
+}
+static bool
+small(const A1& a)
+{
+  for (A1::const_iterator it = a.begin(); it != a.end(); ++it)
+    if (!small_int(*it))
+      return false;
+  return true;
+}
+static bool
+no_zero(const A1& a)
+{
+  for (A1::const_iterator it = a.begin(); it != a.end(); ++it)
+    if (*it == 0)
+      return false;
+  return true;
 }
 
 static int
@@ -121,6 +150,167 @@ run_exec(const char* opsfile, const char* outfile)
                   res = "err";
                 }
             }
+          else if (op == "sub" || op == "mul" || op == "div")
+            {
+              A1& d = *r[I(1)];
+              const A1& v = *r[I(2)];
+              if (!(small(d) && small(v) && (op != "div" || no_zero(v))))
+                res = "skip";
+              else if (op == "sub")
+                d -= v;
+              else if (op == "mul")
+                d *= v;
+              else
+                d /= v;
+            }
+          else if (op == "bsub" || op == "bmul" || op == "bdiv")
+            {
+              A1& d = *r[I(1)];
+              const A1& v = *r[I(2)];
+              if (!(small(d) && small(v) && (op != "bdiv" || no_zero(v))))
+                res = "skip";
+              else
+                {
+                  try
+                    {
+                      if (op == "bsub")
+                        d.VectorWithOffset<int>::operator-=(v);
+                      else if (op == "bmul")
+                        d.VectorWithOffset<int>::operator*=(v);
+                      else
+                        d.VectorWithOffset<int>::operator/=(v);
+                    }
+                  catch (std::exception&)
+                    {
+                      res = "err";
+                    }
+                }
+            }
+          else if (op == "sadd" || op == "ssub" || op == "smul" || op == "sdiv")
+            {
+              A1& d = *r[I(1)];
+              const int x = I(2);
+              if (!(small(d) && small_int(x) && (op != "sdiv" || x != 0)))
+                res = "skip";
+              else if (op == "sadd")
+                d += x;
+              else if (op == "ssub")
+                d -= x;
+              else if (op == "smul")
+                d *= x;
+              else
+                d /= x;
+            }
+          else if (op == "plus" || op == "minus" || op == "times" || op == "over")
+            {
+              A1& d = *r[I(1)];
+              const A1& x = *r[I(2)];
+              const A1& y = *r[I(3)];
+              if (!(small(x) && small(y) && (op != "over" || no_zero(y))))
+                res = "skip";
+              else if (op == "plus")
+                d = x + y;
+              else if (op == "minus")
+                d = x - y;
+              else if (op == "times")
+                d = x * y;
+              else
+                d = x / y;
+            }
+          else if (op == "pluss" || op == "minuss" || op == "timess" || op == "overs")
+            {
+              A1& d = *r[I(1)];
+              const A1& x = *r[I(2)];
+              const int c = I(3);
+              if (!(small(x) && small_int(c) && (op != "overs" || c != 0)))
+                res = "skip";
+              else if (op == "pluss")
+                d = x + c;
+              else if (op == "minuss")
+                d = x - c;
+              else if (op == "timess")
+                d = x * c;
+              else
+                d = x / c;
+            }
+          else if (op == "xapyb")
+            {
+              A1& d = *r[I(1)];
+              const A1& x = *r[I(2)];
+              const A1& y = *r[I(4)];
+              if (!(small(x) && small(y) && small_int(I(3)) && small_int(I(5))))
+                res = "skip";
+              else
+                {
+                  try
+                    {
+                      d.xapyb(x, I(3), y, I(5));
+                    }
+                  catch (std::exception&)
+                    {
+                      res = "err";
+                    }
+                }
+            }
+          else if (op == "xapybv")
+            {
+              A1& d = *r[I(1)];
+              const A1& x = *r[I(2)];
+              const A1& a = *r[I(3)];
+              const A1& y = *r[I(4)];
+              const A1& b = *r[I(5)];
+              if (!(small(x) && small(y) && small(a) && small(b)))
+                res = "skip";
+              else
+                {
+                  try
+                    {
+                      d.xapyb(x, a, y, b);
+                    }
+                  catch (std::exception&)
+                    {
+                      res = "err";
+                    }
+                }
+            }
+          else if (op == "sapyb")
+            {
+              A1& d = *r[I(1)];
+              const A1& y = *r[I(3)];
+              if (!(small(d) && small(y) && small_int(I(2)) && small_int(I(4))))
+                res = "skip";
+              else
+                {
+                  try
+                    {
+                      d.sapyb(I(2), y, I(4));
+                    }
+                  catch (std::exception&)
+                    {
+                      res = "err";
+                    }
+                }
+            }
+          else if (op == "sapybv")
+            {
+              A1& d = *r[I(1)];
+              const A1& a = *r[I(2)];
+              const A1& y = *r[I(3)];
+              const A1& b = *r[I(4)];
+              if (!(small(d) && small(y) && small(a) && small(b)))
+                res = "skip";
+              else
+                {
+                  try
+                    {
+                      d.sapyb(a, y, b);
+                    }
+                  catch (std::exception&)
+                    {
+                      res = "err";
+                    }
+                }
+            }
           else if (op == "recycle")
             r[I(1)]->recycle();
           else if (op == "eq")
@@ -140,15 +330,21 @@ run_exec(const char* opsfile, const char* outfile)
 }
 
 // ---------------------------------------------------------------------------------------
-// N-dimensional oracle: random histories on Array<2,int>/Array<3,int> against a reference
-// std::map<coords,int>; checks after every step: index ranges, every element, size_all,
-// full iteration order (row-major, each element once), views aliasing shared memory.
+// N-dimensional oracle: random histories on Array<2..4,int> against a reference index-range
+// map kept as a nested structure (Ref: every level has its own index range, rows may be empty
+// or differ in range).  After every step: index range at every level, every element,
+// size_all, full iteration order (row-major, each element once), equality; for viewing
+// arrays the aliasing of the shared block.
 // ---------------------------------------------------------------------------------------
 typedef std::map<std::vector<int>, int> RefMap;
+typedef std::vector<std::pair<std::vector<int>, int>> ElemList;
+typedef std::vector<std::pair<int, int>> Box;
+
+static long g_checks = 0; // number of oracle comparisons performed
 
 template <int D>
 static void
-collect(const Array<D, int>& a, std::vector<int>& prefix, std::vector<std::pair<std::vector<int>, int>>& out)
+collect(const Array<D, int>& a, std::vector<int>& prefix, ElemList& out)
 {
   for (int i = a.get_min_index(); i <= a.get_max_index(); ++i)
     {
@@ -159,7 +355,7 @@ collect(const Array<D, int>& a, std::vector<int>& prefix, std::vector<std::pair<
 }
 template <>
 void
-collect<1>(const Array<1, int>& a, std::vector<int>& prefix, std::vector<std::pair<std::vector<int>, int>>& out)
+collect<1>(const Array<1, int>& a, std::vector<int>& prefix, ElemList& out)
 {
   for (int i = a.get_min_index(); i <= a.get_max_index(); ++i)
     {
@@ -169,11 +365,13 @@ collect<1>(const Array<1, int>& a, std::vector<int>& prefix, std::vector<std::pa
     }
 }
 
+// elements, size_all and full iteration of `a` against the expected element list (row-major)
 template <int D>
 static bool
-check_against(const Array<D, int>& a, const RefMap& ref, std::string& why)
+check_elems(const Array<D, int>& a, const ElemList& ref, std::string& why)
 {
-  std::vector<std::pair<std::vector<int>, int>> elems;
+  ++g_checks;
+  ElemList elems;
   std::vector<int> prefix;
   collect(a, prefix, elems);
   if (elems.size() != ref.size())
@@ -186,15 +384,14 @@ check_against(const Array<D, int>& a, const RefMap& ref, std::string& why)
       why = "size_all() " + std::to_string(a.size_all()) + " vs reference " + std::to_string(ref.size());
       return false;
     }
-  // nested-index traversal is lexicographic = std::map order; begin_all must visit the same sequence
+  // nested-index traversal is lexicographic; begin_all must visit the same sequence
   typename Array<D, int>::const_full_iterator fit = a.begin_all_const();
-  RefMap::const_iterator rit = ref.begin();
-  for (std::size_t k = 0; k < elems.size(); ++k, ++rit)
+  for (std::size_t k = 0; k < elems.size(); ++k)
     {
-      if (elems[k].first != rit->first || elems[k].second != rit->second)
+      if (elems[k].first != ref[k].first || elems[k].second != ref[k].second)
         {
           why = "element " + std::to_string(k) + " differs from reference (value " + std::to_string(elems[k].second) + " vs "
-                + std::to_string(rit->second) + ")";
+                + std::to_string(ref[k].second) + ")";
           return false;
         }
       if (fit == a.end_all_const())
@@ -217,47 +414,370 @@ check_against(const Array<D, int>& a, const RefMap& ref, std::string& why)
   return true;
 }
 
-static void
-ref_resize(RefMap& ref, const std::vector<std::pair<int, int>>& box)
+template <int D>
+static bool
+check_against(const Array<D, int>& a, const RefMap& ref, std::string& why)
 {
-  // new map: all coords in box; value = old value if present else 0
-  RefMap n;
-  std::vector<int> c(box.size());
-  std::function<void(std::size_t)> rec = [&](std::size_t d) {
-    if (d == box.size())
-      {
-        RefMap::const_iterator it = ref.find(c);
-        n[c] = it == ref.end() ? 0 : it->second;
-        return;
-      }
-    for (int i = box[d].first; i <= box[d].second; ++i)
-      {
-        c[d] = i;
-        rec(d + 1);
-      }
-  };
-  bool empty = false;
-  for (auto& b : box)
-    if (b.second < b.first)
-      empty = true;
-  if (!empty)
-    rec(0);
-  ref.swap(n);
+  return check_elems(a, ElemList(ref.begin(), ref.end()), why);
+}
+
+// reference: an index-range map with the index range of every level
+struct Ref
+{
+  int dim;
+  int lo;
+  std::vector<Ref> sub; // dim > 1
+  std::vector<int> val; // dim == 1
+  explicit Ref(int d = 1)
+      : dim(d),
+        lo(0)
+  {}
+  int n() const { return dim == 1 ? static_cast<int>(val.size()) : static_cast<int>(sub.size()); }
+  int hi() const { return lo + n() - 1; }
+  bool has(int i) const { return n() > 0 && i >= lo && i <= hi(); }
+  bool operator==(const Ref& o) const { return dim == o.dim && lo == o.lo && sub == o.sub && val == o.val; }
+  bool operator!=(const Ref& o) const { return !(*this == o); }
+};
+
+static void
+ref_flatten(const Ref& r, std::vector<int>& prefix, ElemList& out)
+{
+  for (int i = r.lo; i <= r.hi(); ++i)
+    {
+      prefix.push_back(i);
+      if (r.dim == 1)
+        out.push_back(std::make_pair(prefix, r.val[i - r.lo]));
+      else
+        ref_flatten(r.sub[i - r.lo], prefix, out);
+      prefix.pop_back();
+    }
+}
+static ElemList
+ref_elems(const Ref& r)
+{
+  ElemList out;
+  std::vector<int> prefix;
+  ref_flatten(r, prefix, out);
+  return out;
+}
+
+// resize to a regular box: surviving elements keep their values, new ones are zero
+static void
+ref_resize(Ref& r, const Box& box, std::size_t d = 0)
+{
+  const int mn = box[d].first, mx = box[d].second;
+  if (mx < mn)
+    {
+      r.lo = 0;
+      r.sub.clear();
+      r.val.clear();
+      return;
+    }
+  if (r.dim == 1)
+    {
+      std::vector<int> nv(mx - mn + 1, 0);
+      for (int i = mn; i <= mx; ++i)
+        if (r.has(i))
+          nv[i - mn] = r.val[i - r.lo];
+      r.val.swap(nv);
+    }
+  else
+    {
+      std::vector<Ref> ns;
+      for (int i = mn; i <= mx; ++i)
+        {
+          Ref e(r.dim - 1);
+          if (r.has(i))
+            e = r.sub[i - r.lo];
+          ref_resize(e, box, d + 1);
+          ns.push_back(e);
+        }
+      r.sub.swap(ns);
+    }
+  r.lo = mn;
+}
+
+// grow the range of one level to [mn,mx] (a superset): new 1-D cells are zero, new rows are empty
+static void
+ref_grow_level(Ref& r, int mn, int mx)
+{
+  if (r.dim == 1)
+    {
+      std::vector<int> nv(mx - mn + 1, 0);
+      for (int i = mn; i <= mx; ++i)
+        if (r.has(i))
+          nv[i - mn] = r.val[i - r.lo];
+      r.val.swap(nv);
+    }
+  else
+    {
+      std::vector<Ref> ns;
+      for (int i = mn; i <= mx; ++i)
+        ns.push_back(r.has(i) ? r.sub[i - r.lo] : Ref(r.dim - 1));
+      r.sub.swap(ns);
+    }
+  r.lo = mn;
+}
+
+enum ArOp
+{
+  ADD = 0,
+  SUB,
+  MUL,
+  DIV
+};
+static const char* const ar_name[] = { "+=", "-=", "*=", "/=" };
+static int
+ar(ArOp op, int x, int y)
+{
+  return op == ADD ? x + y : op == SUB ? x - y : op == MUL ? x * y : x / y;
+}
+static void
+ref_scalar(Ref& r, ArOp op, int s)
+{
+  if (r.dim == 1)
+    for (int& x : r.val)
+      x = ar(op, x, s);
+  else
+    for (Ref& e : r.sub)
+      ref_scalar(e, op, s);
+}
+static bool
+ref_all(const Ref& r, const std::function<bool(int)>& p)
+{
+  if (r.dim == 1)
+    {
+      for (int x : r.val)
+        if (!p(x))
+          return false;
+      return true;
+    }
+  for (const Ref& e : r.sub)
+    if (!ref_all(e, p))
+      return false;
+  return true;
+}
+static bool
+ref_small(const Ref& r)
+{
+  return ref_all(r, [](int x) { return x >= -30000 && x <= 30000; });
+}
+static bool
+ref_no_zero(const Ref& r)
+{
+  return ref_all(r, [](int x) { return x != 0; });
+}
+static bool
+ref_has_empty(const Ref& r, bool innermost_only_ok = false)
+{
+  // is there an empty row below the top level?  (with the flag: empty rows above the innermost level only)
+  if (r.dim == 1)
+    return false;
+  for (const Ref& e : r.sub)
+    {
+      if (e.n() == 0 && !(innermost_only_ok && e.dim == 1))
+        return true;
+      if (ref_has_empty(e, innermost_only_ok))
+        return true;
+    }
+  return false;
+}
+static bool
+same_shape(const Ref& a, const Ref& b)
+{
+  if (a.dim != b.dim || a.lo != b.lo || a.n() != b.n())
+    return false;
+  if (a.dim > 1)
+    for (int k = 0; k < a.n(); ++k)
+      if (!same_shape(a.sub[k], b.sub[k]))
+        return false;
+  return true;
+}
+
+// `w op= v` of numeric arrays as a statement about index-range maps: the range becomes the union of the
+// two ranges, elements newly exposed are zero, `op` is applied where `v` has an element (recursively for
+// rows); an empty `w` becomes `v` (+=), `-v` (-=) or zero on v's range (*=, /=).
+// `empty_operand` / `grew_rows` report which special situations occurred (to name the class of a failure).
+static void
+ref_arith(Ref& w, ArOp op, const Ref& v, bool& empty_operand, bool& grew_rows)
+{
+  if (w.n() == 0)
+    {
+      w = v;
+      if (op == SUB)
+        ref_scalar(w, MUL, -1);
+      else if (op == MUL || op == DIV)
+        ref_scalar(w, MUL, 0);
+      return;
+    }
+  if (v.n() == 0)
+    {
+      // the map of `v` has no element: nothing to combine, nothing to expose
+      empty_operand = true;
+      return;
+    }
+  const int mn = std::min(w.lo, v.lo), mx = std::max(w.hi(), v.hi());
+  if (mn != w.lo || mx != w.hi())
+    {
+      if (w.dim > 1)
+        grew_rows = true;
+      ref_grow_level(w, mn, mx);
+    }
+  for (int i = v.lo; i <= v.hi(); ++i)
+    {
+      if (w.dim == 1)
+        w.val[i - w.lo] = ar(op, w.val[i - w.lo], v.val[i - v.lo]);
+      else
+        ref_arith(w.sub[i - w.lo], op, v.sub[i - v.lo], empty_operand, grew_rows);
+    }
+}
+
+// x*a + y*b elementwise on equal shapes
+static void
+ref_xapyb(Ref& w, const Ref& x, int a, const Ref& y, int b)
+{
+  if (w.dim == 1)
+    for (int k = 0; k < w.n(); ++k)
+      w.val[k] = x.val[k] * a + y.val[k] * b;
+  else
+    for (int k = 0; k < w.n(); ++k)
+      ref_xapyb(w.sub[k], x.sub[k], a, y.sub[k], b);
+}
+static void
+ref_xapyb_vec(Ref& w, const Ref& x, const Ref& a, const Ref& y, const Ref& b)
+{
+  if (w.dim == 1)
+    for (int k = 0; k < w.n(); ++k)
+      w.val[k] = x.val[k] * a.val[k] + y.val[k] * b.val[k];
+  else
+    for (int k = 0; k < w.n(); ++k)
+      ref_xapyb_vec(w.sub[k], x.sub[k], a.sub[k], y.sub[k], b.sub[k]);
+}
+
+// regular = every row of a level has the same (regular) range; an empty level counts as regular with range (0,-1)
+static bool
+ref_regular(const Ref& r, std::vector<int>& mn, std::vector<int>& mx)
+{
+  if (r.n() == 0)
+    {
+      mn.assign(r.dim, 0);
+      mx.assign(r.dim, -1);
+      return true;
+    }
+  if (r.dim == 1)
+    {
+      mn.assign(1, r.lo);
+      mx.assign(1, r.hi());
+      return true;
+    }
+  std::vector<int> m0, M0, m, M;
+  if (!ref_regular(r.sub[0], m0, M0))
+    return false;
+  for (int k = 1; k < r.n(); ++k)
+    if (!ref_regular(r.sub[k], m, M) || m != m0 || M != M0)
+      return false;
+  mn.assign(1, r.lo);
+  mn.insert(mn.end(), m0.begin(), m0.end());
+  mx.assign(1, r.hi());
+  mx.insert(mx.end(), M0.begin(), M0.end());
+  return true;
 }
 
 template <int D>
-static IndexRange<D> make_range(const std::vector<std::pair<int, int>>& box);
-template <>
-IndexRange<2>
-make_range<2>(const std::vector<std::pair<int, int>>& b)
+static Ref
+ref_from(const Array<D, int>& a)
 {
-  return IndexRange2D(b[0].first, b[0].second, b[1].first, b[1].second);
+  Ref r(D);
+  if (a.size() == 0)
+    return r;
+  r.lo = a.get_min_index();
+  for (int i = a.get_min_index(); i <= a.get_max_index(); ++i)
+    r.sub.push_back(ref_from(a[i]));
+  return r;
 }
 template <>
-IndexRange<3>
-make_range<3>(const std::vector<std::pair<int, int>>& b)
+Ref
+ref_from<1>(const Array<1, int>& a)
 {
-  return IndexRange3D(b[0].first, b[0].second, b[1].first, b[1].second, b[2].first, b[2].second);
+  Ref r(1);
+  if (a.size() == 0)
+    return r;
+  r.lo = a.get_min_index();
+  for (int i = a.get_min_index(); i <= a.get_max_index(); ++i)
+    r.val.push_back(a[i]);
+  return r;
+}
+
+// index range of every level ("size, index range ... reflect the contents")
+template <int D>
+static bool
+check_shape(const Array<D, int>& a, const Ref& r, std::string& why)
+{
+  if (a.get_min_index() != r.lo || a.get_max_index() != r.hi() || static_cast<int>(a.size()) != r.n())
+    {
+      why = "index range " + std::to_string(a.get_min_index()) + ":" + std::to_string(a.get_max_index()) + " (size "
+            + std::to_string(a.size()) + ") at a level of dimension " + std::to_string(D) + " vs reference " + std::to_string(r.lo)
+            + ":" + std::to_string(r.hi());
+      return false;
+    }
+  for (int i = r.lo; i <= r.hi(); ++i)
+    if (!check_shape(a[i], r.sub[i - r.lo], why))
+      return false;
+  return true;
+}
+template <>
+bool
+check_shape<1>(const Array<1, int>& a, const Ref& r, std::string& why)
+{
+  if (a.get_min_index() != r.lo || a.get_max_index() != r.hi() || static_cast<int>(a.size()) != r.n())
+    {
+      why = "index range " + std::to_string(a.get_min_index()) + ":" + std::to_string(a.get_max_index()) + " (size "
+            + std::to_string(a.size()) + ") of a row vs reference " + std::to_string(r.lo) + ":" + std::to_string(r.hi());
+      return false;
+    }
+  return true;
+}
+
+// an empty array or row whose (empty) index range does not start at 0
+template <int D>
+static bool
+has_noncanonical_empty(const Array<D, int>& a)
+{
+  if (a.size() == 0)
+    return a.get_min_index() != 0;
+  for (int i = a.get_min_index(); i <= a.get_max_index(); ++i)
+    if (has_noncanonical_empty(a[i]))
+      return true;
+  return false;
+}
+template <>
+bool
+has_noncanonical_empty<1>(const Array<1, int>& a)
+{
+  return a.size() == 0 && a.get_min_index() != 0;
+}
+
+template <int D>
+static bool
+check_ref(const Array<D, int>& a, const Ref& r, std::string& why)
+{
+  return check_shape(a, r, why) && check_elems(a, ref_elems(r), why);
+}
+
+template <int D>
+static IndexRange<D>
+range_of(const Ref& r)
+{
+  VectorWithOffset<IndexRange<D - 1>> v(r.lo, r.hi());
+  for (int i = r.lo; i <= r.hi(); ++i)
+    v[i] = range_of<D - 1>(r.sub[i - r.lo]);
+  return IndexRange<D>(v);
+}
+template <>
+IndexRange<1>
+range_of<1>(const Ref& r)
+{
+  return IndexRange<1>(r.lo, r.hi());
 }
 
 template <int D>
@@ -271,201 +791,1129 @@ coord(const std::vector<int>& c)
 }
 
 template <int D>
-static long
-nd_histories(vh::Rng& rng, int histories, int len, FILE* out, long& steps)
+static IndexRange<D>
+make_range(const Box& box)
 {
-  long fails = 0;
+  BasicCoordinate<D, int> mn, mx;
+  for (int d = 1; d <= D; ++d)
+    {
+      mn[d] = box[d - 1].first;
+      mx[d] = box[d - 1].second;
+    }
+  return IndexRange<D>(mn, mx);
+}
+
+static std::string
+box_str(const Box& box)
+{
+  std::ostringstream s;
+  for (auto& bx : box)
+    s << " " << bx.first << ":" << bx.second;
+  return s.str();
+}
+
+static Box
+random_box(vh::Rng& rng, int D)
+{
+  Box box(D);
+  for (int d = 0; d < D; ++d)
+    {
+      const int lo = rng.range(-3, 3);
+      box[d] = std::make_pair(lo, lo + rng.range(0, D >= 4 ? 2 : 3));
+    }
+  if (rng.range(0, 5) == 0)
+    {
+      // an empty range: mostly the whole array (outer dimension), else rows that are empty
+      const int d = rng.range(0, 2) != 0 ? 0 : rng.range(0, D - 1);
+      box[d].second = box[d].first - 1;
+    }
+  return box;
+}
+
+// fill b with 1,2,3,... in row-major order (array and reference)
+template <int D>
+static void
+number_elements(Array<D, int>& b, Ref& rb, int first)
+{
+  ElemList el = ref_elems(rb);
+  int v = first;
+  std::function<void(Ref&)> rec = [&](Ref& r) {
+    if (r.dim == 1)
+      for (int& x : r.val)
+        x = v++;
+    else
+      for (Ref& e : r.sub)
+        rec(e);
+  };
+  rec(rb);
+  v = first;
+  for (auto& kv : el)
+    b[coord<D>(kv.first)] = v++;
+}
+
+struct NdStats
+{
+  long steps = 0, fails = 0, known = 0;
+  std::map<std::string, long> ops;
+};
+
+static void
+oracle_fail(FILE* out, NdStats& st, int D, const std::string& what, const std::string& trace)
+{
+  ++st.fails;
+  std::fprintf(out, "ORACLE-FAIL dim=%d %s | history: %s\n", D, what.c_str(), trace.c_str());
+}
+static void
+known_candidate(FILE* out, NdStats& st, const char* key, int D, const std::string& what, const std::string& trace)
+{
+  ++st.known;
+  std::fprintf(out, "KNOWN-CANDIDATE %s dim=%d %s | history: %s\n", key, D, what.c_str(), trace.c_str());
+}
+
+// Array<D>(range) for a range whose rows are empty keeps the rows' min index (e.g. 2:1) whereas every other way to
+// reach an array without elements gives 0:-1, so that arrays with the same (empty) contents compare unequal: report that
+// class once per occurrence and go on with the array resized to the same range
+template <int D>
+static void
+construct_block(Array<D, int>& x, const Box& box, FILE* out, NdStats& st, const std::string& trace)
+{
+  x = Array<D, int>(make_range<D>(box));
+  {
+    // "Construct an Array of given range of indices, elements are initialised to 0"
+    ++g_checks;
+    bool zero = x.size_all() == make_range<D>(box).size_all();
+    for (typename Array<D, int>::const_full_iterator it = x.begin_all_const(); it != x.end_all_const(); ++it)
+      if (*it != 0)
+        zero = false;
+    if (!zero)
+      oracle_fail(out, st, D, "Array(range) is not an array of zeros of the size of the range", trace);
+  }
+  if (has_noncanonical_empty(x))
+    {
+      Array<D, int> y;
+      y.resize(make_range<D>(box));
+      ++g_checks;
+      if (!(x == y) || x.get_index_range() != y.get_index_range())
+        known_candidate(out, st, "empty-range-min-index-kept", D,
+                        "Array(range) with empty rows that do not start at 0 differs (operator==, get_index_range) from an array "
+                        "resized to the same range, although neither has an element",
+                        trace);
+      x = y;
+    }
+}
+
+template <int D>
+static void
+nd_histories(vh::Rng& rng, int histories, int len, FILE* out, NdStats& st)
+{
+  typedef Array<D, int> A;
   for (int h = 0; h < histories; ++h)
     {
-      Array<D, int> a, b;
-      RefMap ra, rb;
+      A a, b, c;
+      Ref ra(D), rb(D), rc(D);
       std::ostringstream trace;
-      for (int s = 0; s < len; ++s)
+      bool stop = false;
+      for (int s = 0; s < len && !stop; ++s)
         {
-          ++steps;
-          const int which = rng.range(0, 9);
-          std::vector<std::pair<int, int>> box(D);
-          for (int d = 0; d < D; ++d)
-            {
-              const int lo = rng.range(-3, 3);
-              box[d] = std::make_pair(lo, lo + rng.range(-1, 3));
-            }
-          bool any_empty = false;
-          for (auto& bx : box)
-            if (bx.second < bx.first)
-              any_empty = true;
-          if (any_empty && D > 1)
-            { // regular empty range: make the outer dimension empty
-              box[0].second = box[0].first - 1;
-            }
+          ++st.steps;
+          const int which = rng.range(0, 27);
+          const Box box = random_box(rng, D);
+          const ArOp aop = static_cast<ArOp>(rng.range(0, 3));
+          const int sc = rng.range(-3, 3);
+          const char* opname = "";
           try
             {
               if (which <= 2)
                 {
-                  trace << "resize a";
-                  for (auto& bx : box)
-                    trace << " " << bx.first << ":" << bx.second;
-                  trace << "; ";
+                  opname = "resize";
+                  trace << "a.resize" << box_str(box) << "; ";
                   a.resize(make_range<D>(box));
                   ref_resize(ra, box);
                 }
               else if (which == 3)
                 {
-                  trace << "new b";
-                  for (auto& bx : box)
-                    trace << " " << bx.first << ":" << bx.second;
-                  trace << "; ";
-                  b = Array<D, int>(make_range<D>(box));
-                  rb.clear();
+                  opname = "new-block-b";
+                  trace << "b=Array(" << box_str(box) << ") numbered; ";
+                  construct_block(b, box, out, st, trace.str());
+                  rb = Ref(D);
                   ref_resize(rb, box);
-                  int v = 1;
-                  for (auto& kv : rb)
-                    {
-                      kv.second = v;
-                      b[coord<D>(kv.first)] = v;
-                      ++v;
-                    }
+                  number_elements(b, rb, 1);
                 }
               else if (which == 4)
                 {
+                  opname = "copy-assign";
                   trace << "a=b; ";
                   a = b;
                   ra = rb;
                 }
               else if (which == 5)
                 {
+                  opname = "fill";
                   const int v = rng.range(-5, 5);
-                  trace << "fill a " << v << "; ";
+                  trace << "a.fill(" << v << "); ";
                   a.fill(v);
-                  for (auto& kv : ra)
-                    kv.second = v;
+                  ref_scalar(ra, MUL, 0);
+                  ref_scalar(ra, ADD, v);
                 }
-              else if (which == 6 && !ra.empty())
+              else if (which == 6)
                 {
-                  RefMap::iterator it = ra.begin();
-                  std::advance(it, rng.range(0, static_cast<int>(ra.size()) - 1));
-                  const int v = rng.range(-9, 9);
-                  trace << "set a; ";
-                  a.at(coord<D>(it->first)) = v;
-                  it->second = v;
+                  ElemList el = ref_elems(ra);
+                  if (!el.empty())
+                    {
+                      opname = "set";
+                      const std::vector<int> cc = el[rng.range(0, static_cast<int>(el.size()) - 1)].first;
+                      const int v = rng.range(-9, 9);
+                      trace << "a.at(..)=" << v << "; ";
+                      a.at(coord<D>(cc)) = v;
+                      Ref* r = &ra;
+                      for (int d = 0; d + 1 < D; ++d)
+                        r = &r->sub[cc[d] - r->lo];
+                      r->val[cc[D - 1] - r->lo] = v;
+                    }
                 }
               else if (which == 7)
                 {
+                  opname = "copy-construct";
                   trace << "copy-construct; ";
-                  Array<D, int> c(a);
+                  A cc(a);
                   std::string why;
-                  if (!check_against(c, ra, why) || !(c == a))
+                  if (!check_ref(cc, ra, why) || !(cc == a))
                     {
-                      ++fails;
-                      std::fprintf(out, "ORACLE-FAIL dim=%d copy: %s | history: %s\n", D, why.c_str(), trace.str().c_str());
+                      oracle_fail(out, st, D, "copy: " + why, trace.str());
+                      stop = true;
                     }
                 }
-              else if (which == 8)
+              else if (which == 8 || which == 9)
                 {
-                  // same index range required by Array<N>::operator+= (else it grows); use a+=a-copy
-                  trace << "a+=copy(a); ";
-                  Array<D, int> c(a);
-                  a += c;
-                  for (auto& kv : ra)
-                    kv.second *= 2;
+                  // numeric op= with another array: ranges may differ at every level
+                  if (ref_small(ra) && ref_small(rb) && (aop != DIV || ref_no_zero(rb)))
+                    {
+                      opname = ar_name[aop];
+                      trace << "a" << ar_name[aop] << "b; ";
+                      bool empty_operand = false, grew_rows = false;
+                      Ref expect = ra;
+                      ref_arith(expect, aop, rb, empty_operand, grew_rows);
+                      if (aop == ADD)
+                        a += b;
+                      else if (aop == SUB)
+                        a -= b;
+                      else if (aop == MUL)
+                        a *= b;
+                      else
+                        a /= b;
+                      std::string why;
+                      if (!check_ref(a, expect, why) && (empty_operand || grew_rows))
+                        {
+                          // name the class of the failing input, then follow the implementation so that the history can go on
+                          if (empty_operand)
+                            known_candidate(out, st, "numeric-op-empty-operand", D,
+                                            std::string("a") + ar_name[aop]
+                                                + "b with an empty operand (array or row) changes the index range of a: " + why,
+                                            trace.str());
+                          else
+                            known_candidate(out, st, "numeric-op-regrown-rows-stale", D,
+                                            std::string("a") + ar_name[aop]
+                                                + "b growing the range of rows: newly exposed elements are not zero: " + why,
+                                            trace.str());
+                          ra = ref_from(a);
+                        }
+                      else
+                        ra = expect;
+                    }
                 }
-              else if (which == 9)
+              else if (which == 10)
                 {
                   // checked access outside the range must throw
-                  std::vector<int> c(D, 0);
-                  c[0] = 1000;
+                  opname = "at-outside";
+                  std::vector<int> cc(D, 0);
+                  const int lvl = rng.range(0, D - 1);
+                  // a valid prefix if there is one, then an index outside
+                  const Ref* r = &ra;
+                  bool valid = true;
+                  for (int d = 0; d < lvl && valid; ++d)
+                    {
+                      if (r->n() == 0)
+                        valid = false;
+                      else
+                        {
+                          cc[d] = r->lo;
+                          r = r->dim > 1 ? &r->sub[0] : r;
+                        }
+                    }
+                  cc[lvl] = (valid && r->n() > 0) ? (rng.coin() ? r->hi() + 1 : r->lo - 1) : 1000;
                   bool threw = false;
                   try
                     {
-                      (void)a.at(coord<D>(c));
+                      (void)a.at(coord<D>(cc));
                     }
                   catch (std::out_of_range&)
                     {
                       threw = true;
                     }
+                  ++g_checks;
                   if (!threw)
                     {
-                      ++fails;
-                      std::fprintf(out, "ORACLE-FAIL dim=%d at() outside range did not throw | history: %s\n", D, trace.str().c_str());
+                      oracle_fail(out, st, D, "at() outside the range did not throw", trace.str());
+                      stop = true;
                     }
+                }
+              else if (which == 11 || which == 12)
+                {
+                  // block-owning array (contiguous _allocated_full_data_ptr storage) that the following steps resize
+                  opname = "new-block-a";
+                  trace << "a=Array(" << box_str(box) << ") numbered; ";
+                  construct_block(a, box, out, st, trace.str());
+                  ra = Ref(D);
+                  ref_resize(ra, box);
+                  number_elements(a, ra, 11);
+                }
+              else if (which == 13)
+                {
+                  // shrink to a sub-box, then back to the old box: surviving elements keep their values, the others are zero
+                  std::vector<int> mn, mx;
+                  if (ra.n() > 0 && ref_regular(ra, mn, mx))
+                    {
+                      opname = "shrink-regrow";
+                      Box old(D), sub(D);
+                      for (int d = 0; d < D; ++d)
+                        {
+                          old[d] = std::make_pair(mn[d], mx[d]);
+                          const int l = rng.range(mn[d], std::max(mn[d], mx[d]));
+                          sub[d] = std::make_pair(l, rng.range(l, std::max(l, mx[d])));
+                          if (mx[d] < mn[d])
+                            sub[d] = old[d];
+                        }
+                      trace << "a.resize" << box_str(sub) << "; a.resize" << box_str(old) << "; ";
+                      a.resize(make_range<D>(sub));
+                      ref_resize(ra, sub);
+                      std::string why;
+                      if (!check_ref(a, ra, why))
+                        {
+                          oracle_fail(out, st, D, "after shrinking: " + why, trace.str());
+                          stop = true;
+                        }
+                      a.resize(make_range<D>(old));
+                      ref_resize(ra, old);
+                    }
+                }
+              else if (which == 14)
+                {
+                  // move construction and move assignment; the moved-from object is destroyed before the target is read
+                  opname = "move";
+                  trace << "m(std::move(copy of b)); a=std::move(m); ";
+                  A* tmp = new A(b);
+                  A m(std::move(*tmp));
+                  ++g_checks;
+                  if (tmp->size_all() != 0 || tmp->begin_all() != tmp->end_all())
+                    {
+                      oracle_fail(out, st, D, "moved-from array is not empty", trace.str());
+                      stop = true;
+                    }
+                  delete tmp;
+                  std::string why;
+                  if (!check_ref(m, rb, why))
+                    {
+                      oracle_fail(out, st, D, "move-constructed array: " + why, trace.str());
+                      stop = true;
+                    }
+                  a = std::move(m);
+                  ra = rb;
+                }
+              else if (which == 15)
+                {
+                  // move of the block-owning b itself into a, b rebuilt afterwards by copy
+                  opname = "move-block";
+                  trace << "a=std::move(b); b=a; ";
+                  a = std::move(b);
+                  ra = rb;
+                  std::string why;
+                  if (!check_ref(a, ra, why))
+                    {
+                      oracle_fail(out, st, D, "move-assigned array: " + why, trace.str());
+                      stop = true;
+                    }
+                  b = a;
+                }
+              else if (which == 16)
+                {
+                  opname = "swap";
+                  trace << "swap(a,b); ";
+                  swap(a, b);
+                  std::swap(ra, rb);
+                }
+              else if (which == 17)
+                {
+                  if (ref_small(ra) && (aop != DIV || sc != 0))
+                    {
+                      opname = "scalar-op";
+                      trace << "a" << ar_name[aop] << sc << "; ";
+                      if (aop == ADD)
+                        a += sc;
+                      else if (aop == SUB)
+                        a -= sc;
+                      else if (aop == MUL)
+                        a *= sc;
+                      else
+                        a /= sc;
+                      ref_scalar(ra, aop, sc);
+                    }
+                }
+              else if (which == 18)
+                {
+                  // binary operator of the numeric base class: c = a op b, operands untouched
+                  if (ref_small(ra) && ref_small(rb) && (aop != DIV || ref_no_zero(rb)))
+                    {
+                      opname = "binary-op";
+                      trace << "c=a" << ar_name[aop][0] << "b; ";
+                      bool empty_operand = false, grew_rows = false;
+                      rc = ra;
+                      ref_arith(rc, aop, rb, empty_operand, grew_rows);
+                      if (aop == ADD)
+                        c = a + b;
+                      else if (aop == SUB)
+                        c = a - b;
+                      else if (aop == MUL)
+                        c = a * b;
+                      else
+                        c = a / b;
+                      std::string why;
+                      if (!check_ref(c, rc, why))
+                        {
+                          if (empty_operand)
+                            known_candidate(out, st, "numeric-op-empty-operand", D,
+                                            std::string("c=a") + ar_name[aop][0]
+                                                + "b with an empty operand (array or row) has a larger index range than both: " + why,
+                                            trace.str());
+                          else
+                            {
+                              oracle_fail(out, st, D, std::string("c=a") + ar_name[aop][0] + "b: " + why, trace.str());
+                              stop = true;
+                            }
+                          rc = ref_from(c);
+                        }
+                    }
+                }
+              else if (which == 19)
+                {
+                  // make the ranges of a and b agree (so that xapyb/sapyb have compatible operands)
+                  opname = "b=a-renumbered";
+                  trace << "b=a; b numbered; ";
+                  b = a;
+                  rb = ra;
+                  number_elements(b, rb, 2);
+                }
+              else if (which == 20 || which == 21)
+                {
+                  // xapyb / sapyb: equal index ranges at every level, else an error
+                  if (ref_small(ra) && ref_small(rb))
+                    {
+                      const int fa = rng.range(-3, 3), fb = rng.range(-3, 3);
+                      const bool compatible = same_shape(ra, rb);
+                      bool threw = false;
+                      const int variant = rng.range(0, 3);
+                      try
+                        {
+                          if (variant == 0)
+                            {
+                              opname = "xapyb";
+                              trace << "c=a; c.xapyb(a," << fa << ",b," << fb << "); ";
+                              c = a;
+                              rc = ra;
+                              c.xapyb(a, fa, b, fb);
+                            }
+                          else if (variant == 1)
+                            {
+                              opname = "sapyb";
+                              trace << "a.sapyb(" << fa << ",b," << fb << "); ";
+                              a.sapyb(fa, b, fb);
+                            }
+                          else if (variant == 2)
+                            {
+                              opname = "xapyb-vec";
+                              trace << "c=a; c.xapyb(a,b,b,a); ";
+                              c = a;
+                              rc = ra;
+                              c.xapyb(a, b, b, a);
+                            }
+                          else
+                            {
+                              opname = "sapyb-vec";
+                              trace << "a.sapyb(b,b,a') ; ";
+                              A a2(a);
+                              a.sapyb(b, b, a2);
+                            }
+                        }
+                      catch (std::exception&)
+                        {
+                          threw = true;
+                        }
+                      ++g_checks;
+                      if (threw == compatible)
+                        {
+                          oracle_fail(out, st, D,
+                                      std::string(opname) + (threw ? " reported an error for equal index ranges" : " accepted operands with different index ranges"),
+                                      trace.str());
+                          stop = true;
+                        }
+                      else if (compatible)
+                        {
+                          if (variant == 0)
+                            ref_xapyb(rc, ra, fa, rb, fb);
+                          else if (variant == 1)
+                            {
+                              Ref x = ra;
+                              ref_xapyb(ra, x, fa, rb, fb);
+                            }
+                          else if (variant == 2)
+                            ref_xapyb_vec(rc, ra, rb, rb, ra);
+                          else
+                            {
+                              Ref x = ra;
+                              ref_xapyb_vec(ra, x, rb, rb, x);
+                            }
+                        }
+                      std::string why;
+                      if (!stop && (variant == 0 || variant == 2) && !check_ref(c, rc, why))
+                        {
+                          oracle_fail(out, st, D, std::string(opname) + ": " + why, trace.str());
+                          stop = true;
+                        }
+                    }
+                }
+              else if (which == 22)
+                {
+                  // get_index_range / is_regular / get_regular_range against the reference shape
+                  opname = "get_index_range";
+                  ++g_checks;
+                  const IndexRange<D> got = a.get_index_range();
+                  const IndexRange<D> want = range_of<D>(ra);
+                  std::vector<int> mn, mx;
+                  const bool reg = ref_regular(ra, mn, mx);
+                  BasicCoordinate<D, int> gmn, gmx;
+                  const bool greg = a.get_regular_range(gmn, gmx);
+                  std::string what;
+                  if (!(got == want) || got != want)
+                    what = "get_index_range() differs from the index ranges of the rows";
+                  else if (got.size_all() != ref_elems(ra).size())
+                    what = "get_index_range().size_all() differs from the number of elements";
+                  else if (a.is_regular() != reg || greg != reg)
+                    what = std::string("is_regular()/get_regular_range() says ") + (greg ? "regular" : "irregular") + " for "
+                           + (reg ? "a regular" : "an irregular") + " array";
+                  else if (reg)
+                    for (int d = 0; d < D; ++d)
+                      if (gmn[d + 1] != mn[d] || gmx[d + 1] != mx[d])
+                        what = "get_regular_range() returns a different box";
+                  if (!what.empty())
+                    {
+                      oracle_fail(out, st, D, what, trace.str());
+                      stop = true;
+                    }
+                }
+              else if (which == 23)
+                {
+                  // get_min_indices / next / get of array_index_functions: row-major traversal
+                  const ElemList el = ref_elems(ra);
+                  if (!el.empty() && !ref_has_empty(ra, /*innermost_only_ok=*/true))
+                    {
+                      opname = "next";
+                      ++g_checks;
+                      const bool empties = ref_has_empty(ra);
+                      BasicCoordinate<D, int> idx = get_min_indices(a);
+                      std::size_t k = 0;
+                      std::string what;
+                      bool more = true;
+                      // with an empty first row get_min_indices itself points nowhere: validate before dereferencing
+                      while (more)
+                        {
+                          std::vector<int> cc(D);
+                          for (int d = 0; d < D; ++d)
+                            cc[d] = idx[d + 1];
+                          if (k >= el.size() || cc != el[k].first)
+                            {
+                              what = "get_min_indices()/next() yield an index that is not the next element in row-major order (step "
+                                     + std::to_string(k) + ")";
+                              break;
+                            }
+                          if (get(a, idx) != el[k].second)
+                            {
+                              what = "get(a,index) differs from the element";
+                              break;
+                            }
+                          ++k;
+                          more = next(idx, a);
+                        }
+                      if (what.empty() && k != el.size())
+                        what = "next() stops after " + std::to_string(k) + " of " + std::to_string(el.size()) + " elements";
+                      if (!what.empty())
+                        {
+                          if (empties)
+                            known_candidate(out, st, "next-empty-row", D, what + " (array with an empty innermost row)", trace.str());
+                          else
+                            {
+                              oracle_fail(out, st, D, what, trace.str());
+                              stop = true;
+                            }
+                        }
+                    }
+                }
+              else if (which == 24 || which == 25)
+                {
+                  // resize one row: the array becomes irregular
+                  if (ra.n() > 0)
+                    {
+                      opname = "row-resize";
+                      const int i = rng.range(ra.lo, ra.hi());
+                      Box rowbox(box.begin() + 1, box.end());
+                      if (rng.coin())
+                        {
+                          // a small change of the row's own range rather than an unrelated box
+                          std::vector<int> mn, mx;
+                          if (ref_regular(ra.sub[i - ra.lo], mn, mx) && ra.sub[i - ra.lo].n() > 0)
+                            for (int d = 0; d + 1 < D; ++d)
+                              rowbox[d] = std::make_pair(mn[d] + rng.range(-1, 1), mx[d] + rng.range(-1, 1));
+                        }
+                      trace << "a[" << i << "].resize" << box_str(rowbox) << "; ";
+                      a[i].resize(make_range<D - 1>(rowbox));
+                      ref_resize(ra.sub[i - ra.lo], rowbox);
+                    }
+                }
+              else if (which == 26)
+                {
+                  // grow (the range must contain the old one)
+                  std::vector<int> mn, mx;
+                  if (ra.n() > 0 && ref_regular(ra, mn, mx))
+                    {
+                      opname = "grow";
+                      Box g(D);
+                      for (int d = 0; d < D; ++d)
+                        g[d] = std::make_pair(mn[d] - rng.range(0, 1), std::max(mn[d], mx[d]) + rng.range(0, 1));
+                      bool inner_empty = false;
+                      for (int d = 0; d < D; ++d)
+                        if (mx[d] < mn[d])
+                          inner_empty = true;
+                      if (!inner_empty)
+                        {
+                          trace << "a.grow" << box_str(g) << "; ";
+                          a.grow(make_range<D>(g));
+                          ref_resize(ra, g);
+                        }
+                    }
+                }
+              else if (which == 27)
+                {
+                  // assignment into an array that owns a block / has larger capacity, from an irregular one and back
+                  opname = "assign-b=a";
+                  trace << "b=a; ";
+                  b = a;
+                  rb = ra;
                 }
             }
           catch (std::exception& e)
             {
-              ++fails;
-              std::fprintf(out, "ORACLE-FAIL dim=%d unexpected exception %s | history: %s\n", D, e.what(), trace.str().c_str());
+              oracle_fail(out, st, D, std::string("unexpected exception ") + e.what(), trace.str());
               break;
             }
+          if (*opname)
+            ++st.ops[opname];
+          if (stop)
+            break;
           std::string why;
-          if (!check_against(a, ra, why))
+          if (!check_ref(a, ra, why))
             {
-              ++fails;
-              std::fprintf(out, "ORACLE-FAIL dim=%d %s | history: %s\n", D, why.c_str(), trace.str().c_str());
+              oracle_fail(out, st, D, "a: " + why, trace.str());
               break;
             }
-          if ((a == b) != (ra == rb))
+          if (!check_ref(b, rb, why))
             {
-              ++fails;
-              std::fprintf(out, "ORACLE-FAIL dim=%d operator== disagrees with contents | history: %s\n", D, trace.str().c_str());
+              oracle_fail(out, st, D, "b (not an operand that may change): " + why, trace.str());
+              break;
+            }
+          ++g_checks;
+          if ((a == b) != (ra == rb) || (a != b) == (ra == rb))
+            {
+              oracle_fail(out, st, D, "operator== / != disagrees with contents", trace.str());
               break;
             }
         }
     }
-  return fails;
 }
 
-// views: an Array constructed on shared memory aliases it exactly until resized beyond it
-static long
-view_checks(vh::Rng& rng, int n, FILE* out, long& steps)
+// ---------------------------------------------------------------------------------------
+// views: an Array constructed on shared memory aliases it exactly until it is resized beyond it
+// ---------------------------------------------------------------------------------------
+template <int D>
+static void
+collect_addr(Array<D, int>& a, std::vector<int>& prefix, std::vector<std::pair<std::vector<int>, int*>>& out)
 {
-  long fails = 0;
-  for (int k = 0; k < n; ++k)
+  for (int i = a.get_min_index(); i <= a.get_max_index(); ++i)
     {
-      ++steps;
-      const int n0 = rng.range(1, 4), n1 = rng.range(1, 5);
-      const int lo0 = rng.range(-2, 2), lo1 = rng.range(-2, 2);
-      shared_ptr<int[]> mem(new int[n0 * n1]);
-      for (int i = 0; i < n0 * n1; ++i)
-        mem[i] = 100 + i;
-      IndexRange2D range(lo0, lo0 + n0 - 1, lo1, lo1 + n1 - 1);
-      Array<2, int> v(range, mem);
-      bool ok = v.is_contiguous();
-      // aliasing both ways, row-major
-      for (int i = 0; i < n0 && ok; ++i)
-        for (int j = 0; j < n1 && ok; ++j)
-          ok = (&v[lo0 + i][lo1 + j] == &mem[i * n1 + j]);
-      v[lo0][lo1] = -7;
-      ok = ok && mem[0] == -7;
-      mem[n0 * n1 - 1] = -9;
-      ok = ok && v[lo0 + n0 - 1][lo1 + n1 - 1] == -9;
-      if (!ok)
+      prefix.push_back(i);
+      collect_addr(a[i], prefix, out);
+      prefix.pop_back();
+    }
+}
+template <>
+void
+collect_addr<1>(Array<1, int>& a, std::vector<int>& prefix, std::vector<std::pair<std::vector<int>, int*>>& out)
+{
+  for (int i = a.get_min_index(); i <= a.get_max_index(); ++i)
+    {
+      prefix.push_back(i);
+      out.push_back(std::make_pair(prefix, &a[i]));
+      prefix.pop_back();
+    }
+}
+
+static Ref*
+ref_row(Ref& r, const std::vector<int>& cc)
+{
+  Ref* p = &r;
+  for (std::size_t d = 0; d + 1 < cc.size(); ++d)
+    p = &p->sub[cc[d] - p->lo];
+  return p;
+}
+
+template <int D>
+static void
+view_histories(vh::Rng& rng, int cases, FILE* out, NdStats& st)
+{
+  typedef Array<D, int> A;
+  for (int k = 0; k < cases; ++k)
+    {
+      // the original box of the view and the position of a coordinate in the shared block
+      Box obox(D);
+      std::vector<int> stride(D, 1);
+      int N = 1;
+      for (int d = 0; d < D; ++d)
         {
-          ++fails;
-          std::fprintf(out, "ORACLE-FAIL view does not alias shared memory exactly n0=%d n1=%d\n", n0, n1);
-          continue;
+          const int lo = rng.range(-2, 2);
+          obox[d] = std::make_pair(lo, lo + rng.range(0, D == 2 ? 4 : 2));
         }
-      // shrink within: still aliasing; grow beyond: detached, old values kept, new zero
-      Array<2, int> w(range, mem);
-      w.resize(IndexRange2D(lo0, lo0 + n0 - 1, lo1, lo1 + n1)); // one more column
-      bool ok2 = true;
-      for (int i = 0; i < n0 && ok2; ++i)
+      for (int d = D - 1; d >= 0; --d)
         {
-          for (int j = 0; j < n1 && ok2; ++j)
-            ok2 = w[lo0 + i][lo1 + j] == mem[i * n1 + j];
-          ok2 = ok2 && w[lo0 + i][lo1 + n1] == 0;
+          stride[d] = N;
+          N *= obox[d].second - obox[d].first + 1;
         }
-      const int before = mem[0];
-      w[lo0][lo1] = before + 1;
-      // after growing beyond the shared block the rows must no longer write through to it
-      // (each row reallocated), i.e. memory outside the block was never touched (ASan) and
-      // the map semantics hold
-      if (!ok2)
+      auto pos_of = [&](const std::vector<int>& cc) -> int {
+        int p = 0;
+        for (int d = 0; d < D; ++d)
+          {
+            if (cc[d] < obox[d].first || cc[d] > obox[d].second)
+              return -1;
+            p += (cc[d] - obox[d].first) * stride[d];
+          }
+        return p;
+      };
+      shared_ptr<int[]> mem(new int[N]);
+      std::vector<int> blk(N);
+      for (int i = 0; i < N; ++i)
+        blk[i] = mem[i] = 100 + i;
+      A v(make_range<D>(obox), mem);
+      Ref rv(D);
+      ref_resize(rv, obox);
+      {
+        int x = 100;
+        std::function<void(Ref&)> rec = [&](Ref& r) {
+          if (r.dim == 1)
+            for (int& e : r.val)
+              e = x++;
+          else
+            for (Ref& e : r.sub)
+              rec(e);
+        };
+        rec(rv);
+      }
+      std::ostringstream trace;
+      trace << "view" << box_str(obox) << "; ";
+      Box cur = obox;
+      // attached: only shrinking resizes so far; detached: a resize grew the innermost dimension, so every row was reallocated
+      bool attached = true, detached = false;
+      const int nsteps = rng.range(2, 7);
+      bool stop = false;
+      for (int s = 0; s <= nsteps && !stop; ++s)
         {
-          ++fails;
-          std::fprintf(out, "ORACLE-FAIL view resize beyond shared block lost values n0=%d n1=%d\n", n0, n1);
+          ++st.steps;
+          const char* opname = "view-construct";
+          if (s > 0)
+            {
+              const int which = rng.range(0, 9);
+              ElemList el = ref_elems(rv);
+              if (which <= 1 && !el.empty())
+                {
+                  opname = "view-write-element";
+                  const std::vector<int> cc = el[rng.range(0, static_cast<int>(el.size()) - 1)].first;
+                  const int x = rng.range(-50, 50);
+                  trace << "v[..]=" << x << "; ";
+                  int* p = &v[coord<D>(cc)];
+                  v[coord<D>(cc)] = x;
+                  Ref* r = ref_row(rv, cc);
+                  r->val[cc[D - 1] - r->lo] = x;
+                  if (p >= mem.get() && p < mem.get() + N)
+                    blk[p - mem.get()] = x; // that it is the right cell is checked below
+                }
+              else if (which <= 3 && (attached || detached))
+                {
+                  opname = "view-write-block";
+                  const int q = rng.range(0, N - 1);
+                  const int x = rng.range(-50, 50);
+                  trace << "mem[" << q << "]=" << x << "; ";
+                  mem[q] = x;
+                  blk[q] = x;
+                  if (attached)
+                    {
+                      // the element of the (possibly shrunk) view at that position, if it is still in the range
+                      std::vector<int> cc(D);
+                      int rem = q;
+                      bool inside = true;
+                      for (int d = 0; d < D; ++d)
+                        {
+                          cc[d] = obox[d].first + rem / stride[d];
+                          rem %= stride[d];
+                          if (cc[d] < cur[d].first || cc[d] > cur[d].second)
+                            inside = false;
+                        }
+                      if (inside)
+                        {
+                          Ref* r = ref_row(rv, cc);
+                          r->val[cc[D - 1] - r->lo] = x;
+                        }
+                    }
+                }
+              else if (which <= 5)
+                {
+                  opname = "view-shrink";
+                  Box sub(D);
+                  bool empty = false;
+                  for (int d = 0; d < D; ++d)
+                    {
+                      if (cur[d].second < cur[d].first)
+                        empty = true;
+                    }
+                  if (!empty)
+                    {
+                      for (int d = 0; d < D; ++d)
+                        {
+                          const int l = rng.range(cur[d].first, cur[d].second);
+                          sub[d] = std::make_pair(l, rng.range(l, cur[d].second));
+                        }
+                      trace << "v.resize" << box_str(sub) << " (shrink); ";
+                      v.resize(make_range<D>(sub));
+                      ref_resize(rv, sub);
+                      cur = sub;
+                    }
+                }
+              else if (which <= 7)
+                {
+                  opname = "view-grow";
+                  Box g = cur;
+                  const int d = rng.range(0, D - 1);
+                  bool empty = false;
+                  for (int e = 0; e < D; ++e)
+                    if (cur[e].second < cur[e].first)
+                      empty = true;
+                  if (!empty)
+                    {
+                      if (rng.coin())
+                        g[d].second += rng.range(1, 2);
+                      else
+                        g[d].first -= rng.range(1, 2);
+                      trace << "v.resize" << box_str(g) << " (grow dim " << d << "); ";
+                      v.resize(make_range<D>(g));
+                      ref_resize(rv, g);
+                      // growing beyond the original box in the innermost dimension reallocates every row
+                      const bool beyond = g[D - 1].first < obox[D - 1].first || g[D - 1].second > obox[D - 1].second;
+                      attached = false;
+                      if (d == D - 1 && beyond)
+                        detached = true;
+                      cur = g;
+                    }
+                }
+              else if (which == 8)
+                {
+                  opname = "view-fill";
+                  const int x = rng.range(-9, 9);
+                  trace << "v.fill(" << x << "); ";
+                  std::vector<std::pair<std::vector<int>, int*>> ad;
+                  std::vector<int> prefix;
+                  collect_addr(v, prefix, ad);
+                  v.fill(x);
+                  ref_scalar(rv, MUL, 0);
+                  ref_scalar(rv, ADD, x);
+                  for (auto& e : ad)
+                    if (e.second >= mem.get() && e.second < mem.get() + N)
+                      blk[e.second - mem.get()] = x;
+                }
+              else
+                {
+                  opname = "view-copy";
+                  // a copy of a view owns its storage: writing to it does not reach the block
+                  trace << "copy of v written; ";
+                  A cp(v);
+                  std::vector<std::pair<std::vector<int>, int*>> ad;
+                  std::vector<int> prefix;
+                  collect_addr(cp, prefix, ad);
+                  ++g_checks;
+                  for (auto& e : ad)
+                    {
+                      if (e.second >= mem.get() && e.second < mem.get() + N)
+                        {
+                          oracle_fail(out, st, D, "view: an element of a copy of a view lies in the shared block", trace.str());
+                          stop = true;
+                          break;
+                        }
+                      *e.second = -1234;
+                    }
+                }
+            }
+          ++st.ops[opname];
+          if (stop)
+            break;
+          // map semantics
+          std::string why;
+          if (!check_ref(v, rv, why))
+            {
+              oracle_fail(out, st, D, "view: " + why, trace.str());
+              break;
+            }
+          // aliasing: an element that lies in the block is the cell at its own position of the original box
+          std::vector<std::pair<std::vector<int>, int*>> ad;
+          std::vector<int> prefix;
+          collect_addr(v, prefix, ad);
+          ++g_checks;
+          std::string what;
+          for (auto& e : ad)
+            {
+              const bool in_block = e.second >= mem.get() && e.second < mem.get() + N;
+              if (in_block && pos_of(e.first) != e.second - mem.get())
+                what = "an element of the view aliases a cell of the shared block that is not its own";
+              else if (attached && !in_block)
+                what = "an element of a view that was never resized beyond its block does not alias the block";
+              else if (detached && in_block)
+                what = "an element still aliases the shared block after the array was resized beyond it in the innermost dimension";
+              if (!what.empty())
+                break;
+            }
+          // the block holds exactly what was written to it (directly or through elements that alias it)
+          if (what.empty())
+            for (int q = 0; q < N; ++q)
+              if (mem[q] != blk[q])
+                {
+                  // cells re-exposed by a growing resize inside the block are zeroed through the aliasing element
+                  bool is_elem = false;
+                  for (auto& e : ad)
+                    if (e.second == mem.get() + q)
+                      is_elem = true;
+                  if (is_elem && !attached)
+                    blk[q] = mem[q]; // value checked against the reference map above
+                  else
+                    {
+                      what = "cell " + std::to_string(q) + " of the shared block holds " + std::to_string(mem[q]) + ", expected "
+                             + std::to_string(blk[q]);
+                      break;
+                    }
+                }
+          if (!what.empty())
+            {
+              oracle_fail(out, st, D, "view: " + what, trace.str());
+              break;
+            }
         }
     }
-  return fails;
+}
+
+// 1-D viewing constructors of VectorWithOffset / Array<1>
+static void
+view1d_checks(vh::Rng& rng, int cases, FILE* out, NdStats& st)
+{
+  for (int k = 0; k < cases; ++k)
+    {
+      ++st.steps;
+      const int n = rng.range(1, 6), lo = rng.range(-3, 3);
+      const int ctor = rng.range(0, 5);
+      shared_ptr<int[]> mem(new int[n + 2]);
+      for (int i = 0; i < n + 2; ++i)
+        mem[i] = 100 + i;
+      // cells n, n+1 are guard cells that no constructor is given
+      std::ostringstream trace;
+      std::unique_ptr<VectorWithOffset<int>> v;
+      bool is_view = true, owns = false;
+      int vlo = lo;
+      static const char* const names[]
+          = { "Array<1>(range,sptr)", "VectorWithOffset(min,max,sptr)", "VectorWithOffset(sz,sptr)", "VectorWithOffset(min,max,ptr,end)",
+              "VectorWithOffset(sz,ptr,end)", "VectorWithOffset(min,max,const ptr) copying" };
+      switch (ctor)
+        {
+        case 0:
+          v.reset(new Array<1, int>(IndexRange<1>(lo, lo + n - 1), mem));
+          owns = true;
+          break;
+        case 1:
+          v.reset(new VectorWithOffset<int>(lo, lo + n - 1, mem));
+          owns = true;
+          break;
+        case 2:
+          v.reset(new VectorWithOffset<int>(n, mem));
+          vlo = 0;
+          owns = true;
+          break;
+#if STIR_VERSION < 070000
+        case 3:
+          v.reset(new VectorWithOffset<int>(lo, lo + n - 1, mem.get(), mem.get() + n));
+          break;
+        case 4:
+          v.reset(new VectorWithOffset<int>(n, mem.get(), mem.get() + n));
+          vlo = 0;
+          break;
+#endif
+        default:
+          v.reset(new VectorWithOffset<int>(lo, lo + n - 1, static_cast<const int*>(mem.get())));
+          is_view = false;
+          owns = true;
+          break;
+        }
+      trace << names[ctor] << " n=" << n << " lo=" << vlo << "; ";
+      ++st.ops[std::string("view1d:") + names[ctor]];
+      ++g_checks;
+      std::string what;
+      if (v->get_min_index() != vlo || v->get_max_index() != vlo + n - 1 || static_cast<int>(v->size()) != n)
+        what = "index range is not the requested one";
+      for (int i = 0; i < n && what.empty(); ++i)
+        {
+          if ((*v)[vlo + i] != 100 + i)
+            what = "element differs from the data";
+          else if (is_view != (&(*v)[vlo + i] == mem.get() + i))
+            what = is_view ? "viewing constructor does not alias the data" : "copying constructor aliases the data";
+        }
+      if (what.empty() && v->owns_memory_for_data() != owns)
+        what = "owns_memory_for_data() is wrong";
+      if (what.empty())
+        {
+          // write through both ways
+          (*v)[vlo] = -5;
+          if (is_view ? mem[0] != -5 : mem[0] != 100)
+            what = is_view ? "a write to the view does not reach the data" : "a write to a copy reaches the data";
+          mem[n - 1] = -6;
+          const int want_last = is_view ? -6 : (n == 1 ? -5 : 100 + n - 1);
+          if (what.empty() && (*v)[vlo + n - 1] != want_last)
+            what = is_view ? "a write to the data is not seen by the view" : "a write to the data is seen by a copy";
+        }
+      if (what.empty() && is_view)
+        {
+          // shrink within the data, shift, then regrow beyond it: surviving values kept, data untouched afterwards
+          const int a = rng.range(0, n - 1), b = rng.range(a, n - 1);
+          trace << "resize(" << vlo + a << "," << vlo + b << "); ";
+          v->resize(vlo + a, vlo + b);
+          for (int i = a; i <= b && what.empty(); ++i)
+            if (&(*v)[vlo + i] != mem.get() + i)
+              what = "after shrinking within the data an element no longer aliases its cell";
+          if (what.empty() && rng.coin())
+            {
+              const int off = rng.range(-2, 2);
+              trace << "set_offset(" << off << "); ";
+              v->set_offset(off);
+              for (int i = a; i <= b && what.empty(); ++i)
+                if (&(*v)[off + i - a] != mem.get() + i)
+                  what = "after set_offset an element no longer aliases its cell";
+              v->set_offset(vlo + a);
+            }
+          std::vector<int> before(mem.get(), mem.get() + n + 2);
+          if (what.empty())
+            {
+              const int hi = vlo + n + rng.range(0, 1); // beyond the data (the guard cells are not part of it)
+              trace << "resize(" << vlo + a << "," << hi << "); ";
+              v->resize(vlo + a, hi);
+              for (int i = a; i <= b && what.empty(); ++i)
+                if ((*v)[vlo + i] != before[i])
+                  what = "resize beyond the data lost a value";
+              for (int i = vlo + a; i <= hi && what.empty(); ++i)
+                {
+                  if (&(*v)[i] >= mem.get() && &(*v)[i] < mem.get() + n + 2)
+                    what = "after a resize beyond the data an element still lies in it";
+                  (*v)[i] = -77;
+                }
+              for (int i = 0; i < n + 2 && what.empty(); ++i)
+                if (mem[i] != before[i])
+                  what = "resize beyond the data (or a write after it) changed the data or the cells behind it";
+            }
+        }
+      if (!what.empty())
+        oracle_fail(out, st, 1, "1-D view: " + what, trace.str());
+    }
+}
+
+// NumericVectorWithOffset<int,int> used directly (not through Array<1>): its operators grow with the
+// base-class grow(); "elements newly exposed by growing a numeric array are zero"
+static void
+numvec_checks(vh::Rng& rng, int cases, FILE* out, NdStats& st)
+{
+  typedef NumericVectorWithOffset<int, int> NV;
+  bool reported = false;
+  for (int k = 0; k < cases; ++k)
+    {
+      ++st.steps;
+      ++g_checks;
+      const int lo1 = rng.range(-3, 3), n1 = rng.range(1, 4), lo2 = rng.range(-3, 3), n2 = rng.range(1, 4);
+      Array<1, int> x(lo1, lo1 + n1 - 1), y(lo2, lo2 + n2 - 1);
+      x.fill(rng.range(1, 9));
+      y.fill(rng.range(1, 9));
+      // + and - only: with an indeterminate element * and / could overflow
+      const ArOp aop = static_cast<ArOp>(rng.range(0, 1));
+      const NV nx(x), ny(y);
+      NV z = aop == ADD ? nx + ny : nx - ny;
+      ++st.ops["numvec-binary-op"];
+      Ref rx = ref_from(x), ry = ref_from(y);
+      bool e = false, g = false;
+      ref_arith(rx, aop, ry, e, g);
+      bool ok = z.get_min_index() == rx.lo && z.get_max_index() == rx.hi();
+      for (int i = rx.lo; ok && i <= rx.hi(); ++i)
+        ok = z[i] == rx.val[i - rx.lo];
+      if (!ok && !reported)
+        {
+          reported = true;
+          std::ostringstream t;
+          t << "x=[" << lo1 << ".." << lo1 + n1 - 1 << "] y=[" << lo2 << ".." << lo2 + n2 - 1 << "] z = x " << ar_name[aop][0] << " y";
+          known_candidate(out, st, "numeric-vector-of-int-grow-uninitialised", 1,
+                          "NumericVectorWithOffset<int,int> operator on different ranges: newly exposed elements are not zero (indeterminate)",
+                          t.str());
+        }
+    }
+}
+
+// empty index ranges given to constructors: an array without elements equals every other array without elements of the same outer range
+static void
+empty_range_checks(vh::Rng& rng, int cases, FILE* out, NdStats& st)
+{
+  bool reported = false;
+  for (int k = 0; k < cases; ++k)
+    {
+      ++st.steps;
+      ++g_checks;
+      ++st.ops["empty-range-ctor"];
+      const int lo = rng.range(-3, 3), n0 = rng.range(1, 3);
+      // block-owning 2-D array with empty rows whose (empty) range does not start at 0, against the same range reached by resize
+      Array<2, int> a(IndexRange2D(0, n0 - 1, lo, lo - 1));
+      Array<2, int> b;
+      b.resize(IndexRange2D(0, n0 - 1, lo, lo - 1));
+      shared_ptr<int[]> mem(new int[1]);
+      Array<1, int> v(IndexRange<1>(lo, lo - 1), mem);
+      Array<1, int> e;
+      std::string what;
+      if (a.size_all() != 0 || b.size_all() != 0 || v.size() != 0)
+        what = "array constructed on an empty range has elements";
+      else if (!(a == b) || a.get_index_range() != b.get_index_range())
+        what = "Array<2>(range with empty rows) differs from an array resized to the same range";
+      else if (!(v == e))
+        what = "Array<1>(empty range, data) differs from an empty Array<1>";
+      if (!what.empty() && !reported && lo != 0)
+        {
+          reported = true;
+          std::ostringstream t;
+          t << "rows " << lo << ":" << lo - 1;
+          known_candidate(out, st, "empty-range-min-index-kept", 2, what, t.str());
+        }
+      else if (!what.empty() && lo == 0)
+        oracle_fail(out, st, 2, what, "rows 0:-1");
+    }
 }
 
 // irregular arrays: inner rows resized individually; is_contiguous(), copy_to / fill_from, get_full_data_ptr
@@ -638,15 +2086,38 @@ main(int argc, char** argv)
       const int histories = std::atoi(argv[3]);
       const int len = std::atoi(argv[4]);
       FILE* out = std::fopen(argv[5], "w");
-      long steps = 0;
-      long fails = 0;
-      fails += nd_histories<2>(rng, histories, len, out, steps);
-      fails += nd_histories<3>(rng, histories / 2 + 1, len, out, steps);
-      fails += view_checks(rng, histories, out, steps);
-      fails += irregular_checks(rng, histories, out, steps);
-      std::fprintf(out, "ND-DONE steps=%ld fails=%ld\n", steps, fails);
+      NdStats st;
+      nd_histories<2>(rng, histories, len, out, st);
+      nd_histories<3>(rng, histories / 2 + 1, len, out, st);
+      nd_histories<4>(rng, histories / 4 + 1, len, out, st);
+      view_histories<2>(rng, histories, out, st);
+      view_histories<3>(rng, histories / 2 + 1, out, st);
+      view_histories<4>(rng, histories / 4 + 1, out, st);
+      view1d_checks(rng, histories, out, st);
+      numvec_checks(rng, histories / 4 + 1, out, st);
+      empty_range_checks(rng, histories / 10 + 1, out, st);
+      {
+        long steps = 0;
+        const long f = irregular_checks(rng, histories, out, steps);
+        st.steps += steps;
+        st.fails += f;
+        st.ops["irregular-2d"] += steps;
+        g_checks += 5 * steps;
+      }
+      std::fprintf(out, "ND-OPS");
+      for (auto& kv : st.ops)
+        {
+          std::string name = kv.first;
+          for (char& ch : name)
+            if (ch == ' ')
+              ch = '_';
+          std::fprintf(out, " %s=%ld", name.c_str(), kv.second);
+        }
+      std::fprintf(out, "\n");
+      std::fprintf(out, "ND-DONE steps=%ld fails=%ld known=%ld\n", st.steps, st.fails, st.known);
+      std::fprintf(out, "ORACLE-DONE checks=%ld fails=%ld\n", g_checks, st.fails + st.known);
       std::fclose(out);
-      return fails ? 1 : 0;
+      return st.fails ? 1 : 0;
     }
   std::fprintf(stderr, "usage: c11_arrays exec <ops> <out> | nd <seed> <histories> <len> <out>\n");
   return 2;
